@@ -284,3 +284,70 @@ func lemmaCmpKeyOrder(c1 int, o1 uint32, c2 int, o2 uint32) bool {
 //@   ints bv
 //@   requires 0 <= c1 && c1 < 1<<31 && 0 <= c2 && c2 < 1<<31
 //@   ensures result0
+
+// value of the first n hex digits of a path, most significant first
+func specPathVal(path []int, n int) int {
+	if n <= 0 {
+		return 0
+	}
+	return specPathVal(path, n-1)<<4 + path[n-1]
+}
+
+// bytes of key hash stored in a leaf for a leaf path of pathLen digits: 8*klen + 4*pathLen >= 64
+func specKhashLen(pathLen int) int { return (64 - 4*pathLen + 7) / 8 }
+func specTruncMask(klen int) uint64 {
+	if klen >= 8 {
+		return ^uint64(0)
+	}
+	return uint64(1)<<uint(8*klen) - 1
+}
+
+// configuration predicate: what InitTree establishes plus the documented ranges
+func confTreeOK() bool {
+	return Conf != nil && (Conf.NumBucket == 1 || Conf.NumBucket == 16 || Conf.NumBucket == 256) &&
+		Conf.TreeDepth == specDepth(Conf.NumBucket) && 1 <= Conf.TreeHeight && Conf.TreeHeight <= 8 && Conf.TreeDepth+Conf.TreeHeight <= 8 &&
+		Conf.TreeKeyHashLen == specKhashLen(Conf.TreeDepth+Conf.TreeHeight-1) &&
+		Conf.TreeKeyHashMask == specTruncMask(Conf.TreeKeyHashLen)
+}
+
+//@ func (c *HStoreConfig) InitTree
+//@   props C15 C08
+//@   ints bv
+//@   requires (c.NumBucket == 1 || c.NumBucket == 16 || c.NumBucket == 256) && 1 <= c.TreeHeight && c.TreeHeight <= 8 && specDepth(c.NumBucket)+c.TreeHeight <= 8
+//@   modifies c.TreeDepth, c.TreeKeyHashLen, c.TreeKeyHashMask
+//@   ensures c.TreeDepth == specDepth(c.NumBucket)
+//@   ensures c.TreeKeyHashLen == specKhashLen(c.TreeDepth+c.TreeHeight-1) && c.TreeKeyHashMask == specTruncMask(c.TreeKeyHashLen)
+//@   loop 1 invariant 0 <= c.TreeDepth && c.TreeDepth <= 2 && n >= 1 && n == c.NumBucket>>uint(4*c.TreeDepth)
+
+//@ func ParsePathString
+//@   props C15 C11
+//@   ints math
+//@   requires len(pathStr) <= cap(buf)
+//@   modifies elems(buf)
+//@   ensures result1 == nil ==> len(result0) == len(pathStr) && forall(0, len(pathStr), func(i int) bool { return 0 <= result0[i] && result0[i] < 16 })
+//@   ensures result1 != nil ==> result0 == nil
+//@   loop 1 invariant 0 <= i && i <= len(pathStr) && forall(0, i, func(j int) bool { return 0 <= path[j] && path[j] < 16 })
+
+//@ func (ki *KeyInfo) setKeyHashByPath
+//@   props C15 C08
+//@   ints bv
+//@   enumerate len(ki.KeyPath) in 0 1 2 3 4 5 6 7 8 9 10 11 12 13 14 15 16
+//@   requires forall(0, len(ki.KeyPath), func(i int) bool { return 0 <= ki.KeyPath[i] && ki.KeyPath[i] < 16 })
+//@   modifies ki.KeyHash
+//@   ensures forall(0, len(ki.KeyPath), func(i int) bool { return specDigit(ki.KeyHash, i) == ki.KeyPath[i] })
+//@   ensures forall(len(ki.KeyPath), 16, func(i int) bool { return specDigit(ki.KeyHash, i) == 0 })
+//@   loop 1 unroll
+
+//@ func (ki *KeyInfo) Prepare
+//@   props C15 C11 C01
+//@   ints bv
+//@   enumerate Conf.TreeDepth in 0 1 2
+//@   requires confTreeOK() && (ki.KeyIsPath ==> len(ki.StringKey) <= 16)
+//@   modifies ki.KeyPath, ki.KeyPathBuf, ki.BucketID, ki.KeyHash
+//@   ensures !ki.KeyIsPath ==> err == nil && ki.BucketID == specBucket(ki.KeyHash, Conf.TreeDepth) && ki.KeyHash == old(ki.KeyHash)
+//@   ensures !ki.KeyIsPath ==> len(ki.KeyPath) == 16 && forall(0, 16, func(i int) bool { return ki.KeyPath[i] == specDigit(ki.KeyHash, i) })
+//@   ensures !ki.KeyIsPath ==> 0 <= ki.BucketID && ki.BucketID < Conf.NumBucket
+//@   ensures ki.KeyIsPath && err == nil && len(ki.StringKey) < Conf.TreeDepth ==> ki.BucketID == -1
+//@   ensures ki.KeyIsPath && err == nil && len(ki.StringKey) >= Conf.TreeDepth ==> ki.BucketID == specBucket(ki.KeyHash, Conf.TreeDepth) && 0 <= ki.BucketID && ki.BucketID < Conf.NumBucket
+//@   ensures ki.KeyIsPath && err == nil ==> len(ki.KeyPath) == len(ki.StringKey)
+//@   loop 1 unroll
